@@ -57,8 +57,23 @@ func H_JSONRoundTrip() {
 	p1, a1, q1 := pg.RenderParam(e)
 	p2, a2, q2 := pg.RenderParam(&d)
 	rtAssert("renders-param-identically", (q1 == nil) == (q2 == nil) && p1 == p2 && len(a1) == len(a2))
-	rtAssert("deep-equal", matchTree(&d, t, ""))
+	if !kindChanging(t) {
+		rtAssert("deep-equal", matchTree(&d, t, ""))
+	}
 	rtReach("end")
+}
+
+// kindChanging: the tree has a leaf whose kind the decoder infers differently from its text
+// (a quoted string with * or ?, a quoted /slash-delimited/ string, an integer-valued float);
+// C12 waives deep equality for those and nothing else.
+func kindChanging(t *node) bool {
+	for _, n := range collect(t, nLeaf, nil) {
+		switch n.lf.form {
+		case lfQuotedWild, lfQuotedRegexp, lfFloatWhole, lfBareQuotedWild, lfRangeWhole:
+			return true
+		}
+	}
+	return false
 }
 
 // H_JSONBytes (C13): decoding any byte sequence returns a value or an error, never panics;
